@@ -324,6 +324,15 @@ func ProcessRequest(b []byte, key []byte, pkt *Packet) error {
 	if err != nil {
 		return err
 	}
+	// The response echoes the unique identifier: it must be well-formed and
+	// leave room for at least one cookie in a packet of MaxPacketLen bytes.
+	if len(pkt.UniqueID.ID) < 32 {
+		return errShortUniqueID
+	}
+	if len(pkt.Cookies) != 0 &&
+		maxNumCookieFields(len(pkt.UniqueID.ID), len(pkt.Cookies[0].Cookie)) < 1 {
+		return errUnexpectedExtHdrLen
+	}
 	return nil
 }
 
